@@ -18,6 +18,7 @@ type builder struct {
 	m   *sim
 	seq [2]int
 	bg  []int // indices of background acts not joined yet
+	aw  int   // how many of the bookkeeping's self-closed Muxes have an "await" act already
 }
 
 func newBuilder(stream, transport string, qlen int, openA, openB []uint32) *builder {
@@ -28,6 +29,19 @@ func newBuilder(stream, transport string, qlen int, openA, openB []uint32) *buil
 func (b *builder) start() {
 	if b.m == nil {
 		b.m = newSim(b.s)
+		b.awaits()
+	}
+}
+
+// a Mux that has to close itself now (its reader met the end of the trunk or an overflow, a Write
+// failed half-way) does so in its own goroutines: wait for it before the script goes on
+func (b *builder) awaits() {
+	for b.aw < len(b.m.selfClosed) {
+		side := b.m.selfClosed[b.aw]
+		b.aw++
+		w := act{Op: "await", Side: side}
+		b.s.Acts = append(b.s.Acts, w)
+		b.m.apply(b.s, len(b.s.Acts)-1, w, actRes{Kind: "ok"}, nil)
 	}
 }
 
@@ -36,6 +50,7 @@ func (b *builder) add(a act) int {
 	idx := len(b.s.Acts)
 	b.s.Acts = append(b.s.Acts, a)
 	b.m.apply(b.s, idx, a, b.m.predict(a), nil)
+	b.awaits()
 	return idx
 }
 
@@ -390,6 +405,10 @@ func genBlocked(c *hx.Ctx) []*scriptScn {
 			b := newBuilder("muxfault_blocked", "unix", 4, ids, ids)
 			b.s.Blocked[1] = true
 			b.s.Note = fmt.Sprintf("%d frames sent to a blocked peer, variant %d", k, variant)
+			if variant == 2 {
+				// a reader waiting at the writing end sees how the close of the other end arrives
+				b.readOrBg(0, ids[0])
+			}
 			for j := 0; j < k; j++ {
 				b.write(0, ids[j%2], j*3)
 			}
@@ -402,8 +421,11 @@ func genBlocked(c *hx.Ctx) []*scriptScn {
 			case 1: // the writer closes first; the frames are still delivered, then end-of-file
 				b.add(act{Op: "close", Side: 0})
 				b.add(act{Op: "unblock", Side: 1})
-			case 2: // the blocked end is closed before it ever ran
+			case 2: // the blocked end is closed before it ever ran; with frames unread in its socket
+				// buffer the kernel resets the connection: the writing end sees a failing trunk, not an
+				// end-of-file, and the Read waiting there returns before anything else is done
 				b.add(act{Op: "close", Side: 1})
+				b.joinAll()
 			}
 			out = append(out, b.finish())
 		}
@@ -674,7 +696,7 @@ func emitScript(c *hx.Ctx, idx int, s *scriptScn, r scnResult, sh *hx.Shard) {
 		for _, e := range sd.events {
 			evs = append(evs, coqfmt.Pair(e.ev, e.obs))
 		}
-		return fmt.Sprintf("{| sd_qlen := %s; sd_opened := %s; sd_events := %s |}", coqfmt.N(uint64(s.QLen)), coqfmt.List(opened), coqfmt.List(evs))
+		return fmt.Sprintf("{| sd_raw := %s; sd_qlen := %s; sd_opened := %s; sd_events := %s |}", coqfmt.Bool(s.Raw[i]), coqfmt.N(uint64(s.QLen)), coqfmt.List(opened), coqfmt.List(evs))
 	}
 	sentTerm := func(i int) string {
 		var l []string
